@@ -96,6 +96,15 @@ func slotEdgeNode(g *Graph, m *node, d int) *node { return nil }
 //kvc:pure slotEdgeIdx
 func slotEdgeIdx(g *Graph, m *node, d int) int { return 0 }
 
+// slotFed: argument slot d of node m is fed by an edge (the one the inverse function names) from a yielded node.
+func slotFed(g *Graph, m *node, d int) bool {
+	return 0 <= topoIdx(g, slotEdgeNode(g, m, d)) && topoIdx(g, slotEdgeNode(g, m, d)) < len(topoOrder(g)) &&
+		topoOrder(g)[topoIdx(g, slotEdgeNode(g, m, d))] == slotEdgeNode(g, m, d) &&
+		0 <= slotEdgeIdx(g, m, d) && slotEdgeIdx(g, m, d) < len(g.edges[slotEdgeNode(g, m, d)]) &&
+		g.edges[slotEdgeNode(g, m, d)][slotEdgeIdx(g, m, d)].node == m &&
+		g.edges[slotEdgeNode(g, m, d)][slotEdgeIdx(g, m, d)].provideArgDst == d
+}
+
 func slotsDistinct(g *Graph) bool {
 	return vs.ForallRef(func(n *node) bool {
 		return vs.Forall(len(g.edges[n]), func(i int) bool {
@@ -128,6 +137,10 @@ func topoOK(g *Graph) bool {
 			})
 		}) &&
 		len(topoOrder(g)) == len(g.nodes) &&
+		vs.Forall(len(topoOrder(g)), func(j int) bool {
+			return vs.Implies(topoOrder(g)[j].providerSpec != nil && isFieldAccessNode(topoOrder(g)[j]), len(topoOrder(g)[j].providerArgs) >= 1) &&
+				vs.Forall(len(topoOrder(g)[j].providerArgs), func(d int) bool { return slotFed(g, topoOrder(g)[j], d) })
+		}) &&
 		0 <= topoIdx(g, g.returnValue.node) && topoIdx(g, g.returnValue.node) < len(topoOrder(g)) &&
 		topoOrder(g)[topoIdx(g, g.returnValue.node)] == g.returnValue.node
 }
@@ -156,16 +169,14 @@ func contract_Graph_findMaximumAntichainSize(g *Graph) (result uint64) {
 	return
 }
 
-// buildStmts turns pools into threads; only its frame is used here (its own contract: see below).
-//
-//kvc:contract (*Graph).buildStmts
-func contract_Graph_buildStmts(g *Graph, pools [][]*node, nodeProvidedNodes map[*node]map[*node]struct{}, initialProvidedNodes map[*node]struct{}) (stmts []InjectorStmt, err error) {
-	vs.Allocates()
-	return
-}
+// Ghost: the thread (pool index) Build chose for a node, -1 for an injector argument; its position in that pool.
+var (
+	gPoolOf map[*node]int
+	gPosOf  map[*node]int
+)
 
-// Ghost: the thread (pool index) Build chose for a node, -1 for an injector argument.
-var gPoolOf map[*node]int
+//kvc:ghost (*Graph).Build before "pools[poolIdx] = append(pools[poolIdx], n)"
+func ghost_Build_posOf(n *node, pools [][]*node, poolIdx int) { gPosOf[n] = len(pools[poolIdx]) }
 
 // samePool: producer n and consumer m run in the same thread.
 func samePool(n, m *node) bool {
@@ -173,14 +184,16 @@ func samePool(n, m *node) bool {
 }
 
 // edgeWired: the argument slot fed by edge i of node n holds n's value; when n is a provider running in another
-// thread than the consumer the slot is marked "wait" and the value has a completion channel. (Injector arguments
+// thread than the consumer the slot is marked "wait" and the value has a completion channel; when both run in the
+// same thread the producer comes earlier in it. (Injector arguments
 // exist before any thread starts; that same-thread edges are NOT marked is an optimisation. Neither is demanded,
 // because no property asks for it.)
 func edgeWired(g *Graph, n *node, i int) bool {
 	return vs.IsAllocated(edgeSlot(g, n, i)) &&
 		edgeSlot(g, n, i).Param == n.returnValues[g.edges[n][i].provideArgSrc] &&
 		vs.Implies(!samePool(n, g.edges[n][i].node) && n.providerSpec != nil,
-			edgeSlot(g, n, i).IsWait && n.returnValues[g.edges[n][i].provideArgSrc].withChannel)
+			edgeSlot(g, n, i).IsWait && n.returnValues[g.edges[n][i].provideArgSrc].withChannel) &&
+		vs.Implies(samePool(n, g.edges[n][i].node), gPosOf[n] < gPosOf[g.edges[n][i].node])
 }
 
 func edgeSlot(g *Graph, n *node, i int) *InjectorCallArgument {
@@ -206,9 +219,28 @@ func contract_Graph_Build(g *Graph, metaData *MetaData, varPool *VarPool) (resul
 		})))
 	vs.Ensures("values_ready", vs.Implies(err == nil, vs.Forall(len(topoOrder(g)), func(j int) bool { return valuesReady(topoOrder(g)[j]) })))
 	vs.Ensures("imports_nonnil", importsNonNil(metaData.Imports))
+	// C01/C03: the statement of a provider node sits in the thread of the node's pool, at the node's position in the
+	// pool (same-pool producers therefore precede their consumers in program order); goroutines come first
+	vs.Ensures("goroutines_first", vs.Implies(err == nil, 0 <= gChains && gChains <= len(result.Stmts) &&
+		vs.Forall(gChains, func(k int) bool { return vs.TypeIs[*InjectorChainStmt](result.Stmts[k]) }) &&
+		vs.ForallRange(gChains, len(result.Stmts), func(k int) bool { return !vs.TypeIs[*InjectorChainStmt](result.Stmts[k]) })))
+	vs.Ensures("a_nodes_statement_sits_in_its_pools_thread", vs.Implies(err == nil, vs.Forall(len(topoOrder(g)), func(j int) bool {
+		return vs.Implies(topoOrder(g)[j].providerSpec != nil, statementPlaced(result.Stmts, topoOrder(g)[j]))
+	})))
 	vs.ModifiesAll()
 	vs.Allocates()
 	return
+}
+
+// statementPlaced: if the pool of provider node n became a goroutine, the goroutine's statement number gPosOf[n] is
+// n's statement; if it became a segment of the injector's own flow, the segment's statement number gPosOf[n] is.
+func statementPlaced(stmts []InjectorStmt, n *node) bool {
+	return (gChainOfPool[gPoolOf[n]] == -1 || (0 <= gChainOfPool[gPoolOf[n]] && gChainOfPool[gPoolOf[n]] < gChains &&
+		vs.TypeIs[*InjectorChainStmt](stmts[gChainOfPool[gPoolOf[n]]]) && vs.As[*InjectorChainStmt](stmts[gChainOfPool[gPoolOf[n]]]) != nil &&
+		0 <= gPosOf[n] && gPosOf[n] < len(vs.As[*InjectorChainStmt](stmts[gChainOfPool[gPoolOf[n]]]).Statements) &&
+		stmtOfNode(vs.As[*InjectorChainStmt](stmts[gChainOfPool[gPoolOf[n]]]).Statements[gPosOf[n]], n))) &&
+		(gMainStart[gPoolOf[n]] == -1 || (0 <= gChains+gMainStart[gPoolOf[n]]+gPosOf[n] && gChains+gMainStart[gPoolOf[n]]+gPosOf[n] < len(stmts) &&
+			stmtOfNode(stmts[gChains+gMainStart[gPoolOf[n]]+gPosOf[n]], n)))
 }
 
 // --- Build: ghost and loop invariants ---------------------------------------------------------------------
@@ -221,6 +253,11 @@ func providedBound(g *Graph, m map[*node]struct{}, t int) bool {
 	return m != nil && vs.ForallRef(func(x *node) bool {
 		return vs.Implies(vs.Has(m, x), x.providerSpec == nil || (0 <= topoIdx(g, x) && topoIdx(g, x) < t))
 	})
+}
+
+// pooledAt: provider node n sits in the pool and at the position the ghost records.
+func pooledAt(pools [][]*node, n *node) bool {
+	return 0 <= gPoolOf[n] && gPoolOf[n] < len(pools) && 0 <= gPosOf[n] && gPosOf[n] < len(pools[gPoolOf[n]]) && pools[gPoolOf[n]][gPosOf[n]] == n
 }
 
 func buildLocalsOK(injector *Injector, pools [][]*node, poolProvidedNodes []map[*node]struct{}, initialProvidedNodes map[*node]struct{}, nodeProvidedNodes map[*node]map[*node]struct{}, nodeToPoolIdx map[*node]int) bool {
@@ -258,6 +295,20 @@ func inv_Build_pass1(g *Graph, injector *Injector, pools [][]*node, poolProvided
 			(gPoolOf[topoOrder(g)[j]] == -1) == (topoOrder(g)[j].providerSpec == nil) && gPoolOf[topoOrder(g)[j]] >= -1
 	}))
 	vs.Invariant("args_ready", injectorArgsReady(injector))
+	vs.Invariant("pooled_where_recorded", vs.Forall(kvcIdx, func(j int) bool {
+		return vs.Implies(topoOrder(g)[j].providerSpec != nil, pooledAt(pools, topoOrder(g)[j]))
+	}))
+	vs.Invariant("pools_follow_yield_order", vs.Forall(len(pools), func(p int) bool {
+		return vs.ForallInt2(func(k, k2 int) bool {
+			return vs.Implies(0 <= k && k < k2 && k2 < len(pools[p]), topoIdx(g, pools[p][k]) < topoIdx(g, pools[p][k2]))
+		})
+	}))
+	vs.Invariant("pools_hold_yielded_providers", vs.Forall(len(pools), func(p int) bool {
+		return vs.Forall(len(pools[p]), func(k int) bool {
+			return gPoolOf[pools[p][k]] == p && gPosOf[pools[p][k]] == k && 0 <= topoIdx(g, pools[p][k]) && topoIdx(g, pools[p][k]) < kvcIdx &&
+				topoOrder(g)[topoIdx(g, pools[p][k])] == pools[p][k]
+		})
+	}))
 	vs.Invariant("initial_only_arguments", providedBound(g, initialProvidedNodes, 0))
 	vs.Invariant("pool_sets_private", vs.Forall(len(poolProvidedNodes), func(k int) bool { return !vs.SameMap(poolProvidedNodes[k], initialProvidedNodes) }))
 	vs.Invariant("pool_sets_bounded", vs.Forall(len(poolProvidedNodes), func(k int) bool { return providedBound(g, poolProvidedNodes[k], kvcIdx) }))
@@ -293,4 +344,194 @@ func inv_Build_edges(g *Graph, n *node, kvcIdx int, kvcOuterIdx int) {
 		return vs.Forall(len(g.edges[topoOrder(g)[j]]), func(i int) bool { return edgeWired(g, topoOrder(g)[j], i) })
 	}))
 	vs.Invariant("wired_here", vs.Forall(kvcIdx, func(i int) bool { return edgeWired(g, n, i) }))
+}
+
+// ---------------------------------------------------------------------------
+// buildStmts: pools become threads. Every emitted statement is the image of a pooled node; a pool's statements
+// stay together, in pool order, inside ONE thread: either one goroutine (chain statement) of its own, or a
+// contiguous segment of the injector's own flow. Ghost: gChainOfPool[p] = index of the chain statement that
+// holds pool p (-1: none), gMainStart[p] = start of pool p's segment in the injector's own flow (-1: none),
+// gChains = number of chain statements, which all precede the injector's own statements.
+// NOT stated (bounded only, decl_bounded): that no non-empty pool is left out, and that the segments of the
+// injector's own flow are ordered so that a wait never precedes its close (rank argument).
+// ---------------------------------------------------------------------------
+
+var (
+	gChainOfPool map[int]int
+	gMainStart   map[int]int
+	gChains      int
+)
+
+// isChainOfPool: s is a goroutine statement whose body is exactly the image of pool, in order.
+func isChainOfPool(s InjectorStmt, pool []*node) bool {
+	return vs.TypeIs[*InjectorChainStmt](s) && vs.As[*InjectorChainStmt](s) != nil &&
+		len(vs.As[*InjectorChainStmt](s).Statements) == len(pool) &&
+		vs.Forall(len(pool), func(i int) bool { return stmtOfNode(vs.As[*InjectorChainStmt](s).Statements[i], pool[i]) })
+}
+
+// segmentOfPool: stmts[start .. start+len(pool)) is the image of pool, in order.
+func segmentOfPool(stmts []InjectorStmt, start int, pool []*node) bool {
+	return 0 <= start && start+len(pool) <= len(stmts) &&
+		vs.Forall(len(pool), func(i int) bool { return stmtOfNode(stmts[start+i], pool[i]) })
+}
+
+func poolsPlanned(pools [][]*node) bool {
+	return vs.Forall(len(pools), func(p int) bool { return poolPlanned(pools[p]) })
+}
+
+// --- the ghost bookkeeping -------------------------------------------------------------------------------
+
+//kvc:ghost (*Graph).buildStmts after "visited[i] = len(pool) == 0"
+func ghost_buildStmts_reset(i int) {
+	gChainOfPool[i] = -1
+	gMainStart[i] = -1
+}
+
+//kvc:ghost (*Graph).buildStmts before "for _, n := range pools[syncPoolIdx]"
+func ghost_buildStmts_mainSync(syncPoolIdx int) { gMainStart[syncPoolIdx] = 0 }
+
+//kvc:ghost (*Graph).buildStmts before "for _, n := range pools[parentPoolIdx]"
+func ghost_buildStmts_mainFirst(parentPoolIdx int) { gMainStart[parentPoolIdx] = 0 }
+
+//kvc:ghost (*Graph).buildStmts after "stmts = append(stmts, &InjectorChainStmt{"
+func ghost_buildStmts_chain(stmts []InjectorStmt, poolIdx int) {
+	gChainOfPool[poolIdx] = len(stmts) - 1
+}
+
+//kvc:ghost (*Graph).buildStmts before "parentStmts = append(parentStmts, subStmts...)"
+func ghost_buildStmts_mainAppend(parentStmts []InjectorStmt, poolIdx int) {
+	gMainStart[poolIdx] = len(parentStmts)
+}
+
+//kvc:ghost (*Graph).buildStmts before "stmts = append(stmts, parentStmts...)"
+func ghost_buildStmts_chainsDone(stmts []InjectorStmt) { gChains = len(stmts) }
+
+// --- invariants ------------------------------------------------------------------------------------------
+
+// threadsOK: what is known about the pools handled so far (n = number of pools whose ghost entries are initialised).
+func threadsOK(pools [][]*node, visited []bool, stmts, parentStmts []InjectorStmt, n int) bool {
+	return len(visited) == len(pools) &&
+		vs.Forall(n, func(p int) bool {
+			return (gChainOfPool[p] == -1 || gMainStart[p] == -1) &&
+				vs.Implies(!visited[p], gChainOfPool[p] == -1 && gMainStart[p] == -1 && len(pools[p]) > 0) &&
+				(gChainOfPool[p] == -1 || (0 <= gChainOfPool[p] && gChainOfPool[p] < len(stmts) && isChainOfPool(stmts[gChainOfPool[p]], pools[p]))) &&
+				(gMainStart[p] == -1 || segmentOfPool(parentStmts, gMainStart[p], pools[p]))
+		}) &&
+		vs.Forall(len(stmts), func(k int) bool { return vs.TypeIs[*InjectorChainStmt](stmts[k]) }) &&
+		vs.Forall(len(parentStmts), func(k int) bool { return !vs.TypeIs[*InjectorChainStmt](parentStmts[k]) })
+}
+
+func poolIdxsOK(pools [][]*node, idxs []int) bool {
+	return vs.Forall(len(idxs), func(k int) bool { return 0 <= idxs[k] && idxs[k] < len(pools) && len(pools[idxs[k]]) > 0 })
+}
+
+//kvc:contract (*Graph).buildStmts
+func contract_Graph_buildStmts(g *Graph, pools [][]*node, nodeProvidedNodes map[*node]map[*node]struct{}, initialProvidedNodes map[*node]struct{}) (stmts []InjectorStmt, err error) {
+	vs.Requires(g != nil && poolsPlanned(pools) && initialProvidedNodes != nil)
+	// C01/C03: goroutines first, then the injector's own flow
+	vs.Ensures("goroutines_first", vs.Implies(err == nil, 0 <= gChains && gChains <= len(stmts) &&
+		vs.Forall(gChains, func(k int) bool { return vs.TypeIs[*InjectorChainStmt](stmts[k]) }) &&
+		vs.ForallRange(gChains, len(stmts), func(k int) bool { return !vs.TypeIs[*InjectorChainStmt](stmts[k]) })))
+	// C01: a pool is never split over threads and keeps its order: it is one goroutine, or one segment of the own flow
+	vs.Ensures("a_pool_stays_in_one_thread_in_order", vs.Implies(err == nil, vs.Forall(len(pools), func(p int) bool {
+		return (gChainOfPool[p] == -1 || gMainStart[p] == -1) &&
+			(gChainOfPool[p] == -1 || (0 <= gChainOfPool[p] && gChainOfPool[p] < gChains && isChainOfPool(stmts[gChainOfPool[p]], pools[p]))) &&
+			(gMainStart[p] == -1 || segmentOfPool(stmts, gChains+gMainStart[p], pools[p]))
+	})))
+	vs.Modifies(gChainOfPool, gMainStart, gChains)
+	vs.Allocates()
+	return
+}
+
+//kvc:loop (*Graph).buildStmts "for i, pool := range pools { visited[i] = len(pool) == 0"
+func inv_buildStmts_visited(pools [][]*node, visited []bool, kvcIdx int) {
+	vs.Invariant("init", len(visited) == len(pools) && vs.Forall(kvcIdx, func(p int) bool {
+		return gChainOfPool[p] == -1 && gMainStart[p] == -1 && visited[p] == (len(pools[p]) == 0)
+	}))
+}
+
+//kvc:loop (*Graph).buildStmts "for i, pool := range pools { if visited[i] { continue } firstNode := pool[0]"
+func inv_buildStmts_initial(pools [][]*node, visited []bool, initialPoolIdxs []int, kvcIdx int) {
+	vs.Invariant("init", len(visited) == len(pools) && vs.Forall(len(pools), func(p int) bool {
+		return gChainOfPool[p] == -1 && gMainStart[p] == -1 && visited[p] == (len(pools[p]) == 0)
+	}))
+	vs.Invariant("idxs", poolIdxsOK(pools, initialPoolIdxs))
+}
+
+//kvc:loop (*Graph).buildStmts "for _, dependency := range g.reverseEdges[firstNode] { if _, ok := initialProvidedNodes[dependency]"
+func inv_buildStmts_deps0() {}
+
+//kvc:loop (*Graph).buildStmts "for _, poolIdx := range initialPoolIdxs { if !pools[poolIdx][0].providerSpec.IsAsync"
+func inv_buildStmts_sync(pools [][]*node, syncPoolIdx int) {
+	vs.Invariant("sync_idx", syncPoolIdx == -1 || (0 <= syncPoolIdx && syncPoolIdx < len(pools) && len(pools[syncPoolIdx]) > 0))
+}
+
+//kvc:loop (*Graph).buildStmts "for _, n := range pools[syncPoolIdx]"
+func inv_buildStmts_proc1(processedNodes map[*node]struct{}) {
+	vs.Invariant("map", processedNodes != nil)
+}
+
+//kvc:loop (*Graph).buildStmts "for _, n := range pools[parentPoolIdx]"
+func inv_buildStmts_proc2(processedNodes map[*node]struct{}) {
+	vs.Invariant("map", processedNodes != nil)
+}
+
+//kvc:loop (*Graph).buildStmts "for _, poolIdx := range initialPoolIdxs { if visited[poolIdx]"
+func inv_buildStmts_chains(pools [][]*node, visited []bool, stmts, parentStmts []InjectorStmt, initialPoolIdxs []int, processedNodes map[*node]struct{}) {
+	vs.Invariant("threads", threadsOK(pools, visited, stmts, parentStmts, len(pools)))
+	vs.Invariant("idxs", poolIdxsOK(pools, initialPoolIdxs) && processedNodes != nil)
+}
+
+//kvc:loop (*Graph).buildStmts "for _, n := range pools[poolIdx]"
+func inv_buildStmts_proc3(processedNodes map[*node]struct{}) {
+	vs.Invariant("map", processedNodes != nil)
+}
+
+//kvc:loop (*Graph).buildStmts "for { newPoolProcessed := false"
+func inv_buildStmts_fix(pools [][]*node, visited []bool, stmts, parentStmts []InjectorStmt, processedNodes map[*node]struct{}) {
+	vs.Invariant("threads", threadsOK(pools, visited, stmts, parentStmts, len(pools)) && processedNodes != nil)
+}
+
+//kvc:loop (*Graph).buildStmts "for poolIdx, pool := range pools { if visited[poolIdx] || len(pool) == 0"
+func inv_buildStmts_fixInner(pools [][]*node, visited []bool, stmts, parentStmts []InjectorStmt, processedNodes map[*node]struct{}) {
+	vs.Invariant("threads", threadsOK(pools, visited, stmts, parentStmts, len(pools)) && processedNodes != nil)
+}
+
+//kvc:loop (*Graph).buildStmts "for _, dependency := range g.reverseEdges[firstNode] { if _, ok := processedNodes[dependency]"
+func inv_buildStmts_deps1() {}
+
+//kvc:loop (*Graph).buildStmts "for _, n := range pool"
+func inv_buildStmts_proc4(processedNodes map[*node]struct{}) {
+	vs.Invariant("map", processedNodes != nil)
+}
+
+// proof hints (the solvers do not find the instantiation of the append facts by themselves)
+//
+//kvc:ghost (*Graph).buildStmts after "parentStmts = append(parentStmts, subStmts...)"
+func ghost_buildStmts_mainAppended(pools [][]*node, pool []*node, poolIdx int, parentStmts, subStmts []InjectorStmt) {
+	vs.Assert("hint_new_segment_is_the_pool", segmentOfPool(parentStmts, gMainStart[poolIdx], pool))
+	vs.Assert("hint_pool_is_pools_idx", vs.SameSlice(pool, pools[poolIdx]))
+	vs.Assert("hint_older_segments_kept", vs.Forall(len(pools), func(p int) bool {
+		return p == poolIdx || gMainStart[p] == -1 || segmentOfPool(parentStmts, gMainStart[p], pools[p])
+	}))
+}
+
+// proof hints before the plan is turned into statements: every argument slot of every yielded provider has been
+// wired (its feeding edge was processed in pass 2), hence every pooled node is ready for buildPoolStmtsSimple
+//
+//kvc:ghost (*Graph).Build before "injector.Stmts, err = g.buildStmts("
+func ghost_Build_planned(g *Graph, pools [][]*node) {
+	vs.Assert("hint_slots_fed", vs.Forall(len(topoOrder(g)), func(j int) bool {
+		return vs.Forall(len(topoOrder(g)[j].providerArgs), func(d int) bool { return slotFed(g, topoOrder(g)[j], d) })
+	}))
+	vs.Assert("hint_feeding_edges_wired", vs.Forall(len(topoOrder(g)), func(j int) bool {
+		return vs.Forall(len(topoOrder(g)[j].providerArgs), func(d int) bool {
+			return edgeWired(g, slotEdgeNode(g, topoOrder(g)[j], d), slotEdgeIdx(g, topoOrder(g)[j], d)) &&
+				edgeSlot(g, slotEdgeNode(g, topoOrder(g)[j], d), slotEdgeIdx(g, topoOrder(g)[j], d)) == topoOrder(g)[j].providerArgs[d]
+		})
+	}))
+	vs.Assert("every_argument_slot_is_wired", vs.Forall(len(topoOrder(g)), func(j int) bool {
+		return vs.Forall(len(topoOrder(g)[j].providerArgs), func(d int) bool { return vs.IsAllocated(topoOrder(g)[j].providerArgs[d]) })
+	}))
+	vs.Assert("hint_pools_planned", poolsPlanned(pools))
 }
